@@ -212,17 +212,17 @@ theorem loop_nodes (ctx : ImplContext) (hk : ctx.kind.cls = .into)
       | none =>
         simp only [endOk] at hend
         subst hend
-        simp [structInitLoop]
+        simp [structInitLoop, levelBreak]
       | some l =>
         obtain ⟨cp, crc, d⟩ := l
         obtain ⟨pfx, hpfx, hr⟩ := hend
         cases hr with
-        | inl h => subst h; simp [structInitLoop]
+        | inl h => subst h; simp [structInitLoop, levelBreak]
         | inr h =>
           obtain ⟨fc, rs, hr, hm⟩ := h
           subst hr
           unfold structInitLoop
-          simp [hpfx, hm, bind, Except.bind, pure, Except.pure]
+          simp [levelBreak, hpfx, hm, bind, Except.bind, pure, Except.pure]
   | .cons (.leaf fc f) ns, named, lvl, hint, rest, fuel, frags, idx, hf, hwf, hend => by
     cases fuel with
     | zero => simp at hf
@@ -236,7 +236,7 @@ theorem loop_nodes (ctx : ImplContext) (hk : ctx.kind.cls = .into)
       | none =>
         simp only at hlvl
         conv => lhs; unfold structInitLoop
-        simp only [bind, Except.bind, pure, Except.pure, Bool.false_eq_true, ↓reduceIte, hfd, hlvl, Option.map_none]
+        simp only [levelBreak, levelBreak, bind, Except.bind, pure, Except.pure, Bool.false_eq_true, ↓reduceIte, hfd, hlvl, Option.map_none]
         by_cases hs : fieldSkipped ctx f = true
         · simp only [hs, ↓reduceIte]
           exact ih frags idx hn hwf' hend
@@ -254,7 +254,7 @@ theorem loop_nodes (ctx : ImplContext) (hk : ctx.kind.cls = .into)
         obtain ⟨cp, crc, d⟩ := l
         obtain ⟨pfx, ca, hpfx, hpath, hca, hlen⟩ := hlvl
         conv => lhs; unfold structInitLoop
-        simp only [hpfx, hpath, pathMatches_self, bind, Except.bind, pure, Except.pure, Bool.not_true, Bool.false_eq_true,
+        simp only [levelBreak, levelBreak, hpfx, hpath, pathMatches_self, bind, Except.bind, pure, Except.pure, Bool.not_true, Bool.false_eq_true,
           ↓reduceIte, hfd, Option.map_some, hca]
         by_cases hs : fieldSkipped ctx f = true
         · simp only [hs, ↓reduceIte]
@@ -265,6 +265,7 @@ theorem loop_nodes (ctx : ImplContext) (hk : ctx.kind.cls = .into)
           | zero => simp at hn
           | succ n' =>
             unfold renderChildFragment
+            simp only [deeperThan, nextDepth, Option.map_none, Option.map_some]
             have hdeep : (d < ca.childPath.strs.length - 1) = False := by simp [hlen]
             simp only [hdeep, decide_false, Bool.false_eq_true, ↓reduceIte, List.drop_one, List.tail_cons, bind, Except.bind, pure, Except.pure,
               childLineHint_not_from ctx ca hint (cls_into_not_from hk)]
@@ -309,8 +310,9 @@ theorem loop_nodes (ctx : ImplContext) (hk : ctx.kind.cls = .into)
       cases lvl with
       | none =>
         conv => lhs; unfold structInitLoop
-        simp only [bind, Except.bind, pure, Except.pure, Bool.false_eq_true, ↓reduceIte, hfd, hns, hca0, Option.map_none]
+        simp only [levelBreak, levelBreak, bind, Except.bind, pure, Except.pure, Bool.false_eq_true, ↓reduceIte, hfd, hns, hca0, Option.map_none]
         unfold renderChildFragment
+        simp only [deeperThan, nextDepth, Option.map_none, Option.map_some]
         simp only [↓reduceIte, hk, hcpa, hkey, hfind, hnr, bind, Except.bind, pure, Except.pure, newDepthOf] at hkey ihkids ⊢
         sub_tail 0
       | some l =>
@@ -322,8 +324,9 @@ theorem loop_nodes (ctx : ImplContext) (hk : ctx.kind.cls = .into)
         rw [hp0] at hm
         have hdeepB : decide (d < ca0.childPath.strs.length - 1) = true := by simpa using hdeep
         conv => lhs; unfold structInitLoop
-        simp only [hpfx, hm, bind, Except.bind, pure, Except.pure, Bool.not_true, Bool.false_eq_true, ↓reduceIte, hfd, hns, hca0, Option.map_some]
+        simp only [levelBreak, levelBreak, hpfx, hm, bind, Except.bind, pure, Except.pure, Bool.not_true, Bool.false_eq_true, ↓reduceIte, hfd, hns, hca0, Option.map_some]
         unfold renderChildFragment
+        simp only [deeperThan, nextDepth, Option.map_none, Option.map_some]
         simp only [hdeepB, ↓reduceIte, hk, hcpa, hkey, hfind, hnr, bind, Except.bind, pure, Except.pure, newDepthOf] at hkey ihkids ⊢
         sub_tail (d + 1)
 
@@ -401,17 +404,17 @@ theorem loop_nodes_existing (ctx : ImplContext) (hk : ctx.kind.cls = .existing)
       | none =>
         simp only [endOk] at hend
         subst hend
-        simp [structInitLoop]
+        simp [structInitLoop, levelBreak]
       | some l =>
         obtain ⟨cp, crc, d⟩ := l
         obtain ⟨pfx, hpfx, hr⟩ := hend
         cases hr with
-        | inl h => subst h; simp [structInitLoop]
+        | inl h => subst h; simp [structInitLoop, levelBreak]
         | inr h =>
           obtain ⟨fc, rs, hr, hm⟩ := h
           subst hr
           unfold structInitLoop
-          simp [hpfx, hm, bind, Except.bind, pure, Except.pure]
+          simp [levelBreak, hpfx, hm, bind, Except.bind, pure, Except.pure]
   | .cons (.leaf fc f) ns, named, lvl, hint, rest, fuel, frags, idx, hf, hwf, hend => by
     cases fuel with
     | zero => simp at hf
@@ -425,7 +428,7 @@ theorem loop_nodes_existing (ctx : ImplContext) (hk : ctx.kind.cls = .existing)
       | none =>
         simp only at hlvl
         conv => lhs; unfold structInitLoop
-        simp only [bind, Except.bind, pure, Except.pure, Bool.false_eq_true, ↓reduceIte, hfd, hlvl, Option.map_none]
+        simp only [levelBreak, levelBreak, bind, Except.bind, pure, Except.pure, Bool.false_eq_true, ↓reduceIte, hfd, hlvl, Option.map_none]
         by_cases hs : fieldSkipped ctx f = true
         · simp only [hs, ↓reduceIte]
           exact ih frags idx hn hwf' hend
@@ -443,7 +446,7 @@ theorem loop_nodes_existing (ctx : ImplContext) (hk : ctx.kind.cls = .existing)
         obtain ⟨cp, crc, d⟩ := l
         obtain ⟨pfx, ca, hpfx, hpath, hca, hlen⟩ := hlvl
         conv => lhs; unfold structInitLoop
-        simp only [hpfx, hpath, pathMatches_self, bind, Except.bind, pure, Except.pure, Bool.not_true, Bool.false_eq_true,
+        simp only [levelBreak, levelBreak, hpfx, hpath, pathMatches_self, bind, Except.bind, pure, Except.pure, Bool.not_true, Bool.false_eq_true,
           ↓reduceIte, hfd, Option.map_some, hca]
         by_cases hs : fieldSkipped ctx f = true
         · simp only [hs, ↓reduceIte]
@@ -454,6 +457,7 @@ theorem loop_nodes_existing (ctx : ImplContext) (hk : ctx.kind.cls = .existing)
           | zero => simp at hn
           | succ n' =>
             unfold renderChildFragment
+            simp only [deeperThan, nextDepth, Option.map_none, Option.map_some]
             have hdeep : (d < ca.childPath.strs.length - 1) = False := by simp [hlen]
             simp only [hdeep, decide_false, Bool.false_eq_true, ↓reduceIte, List.drop_one, List.tail_cons, bind, Except.bind, pure, Except.pure,
               childLineHint_not_from ctx ca hint (cls_existing_not_from hk)]
@@ -498,8 +502,9 @@ theorem loop_nodes_existing (ctx : ImplContext) (hk : ctx.kind.cls = .existing)
       cases lvl with
       | none =>
         conv => lhs; unfold structInitLoop
-        simp only [bind, Except.bind, pure, Except.pure, Bool.false_eq_true, ↓reduceIte, hfd, hns, hca0, Option.map_none]
+        simp only [levelBreak, levelBreak, bind, Except.bind, pure, Except.pure, Bool.false_eq_true, ↓reduceIte, hfd, hns, hca0, Option.map_none]
         unfold renderChildFragment
+        simp only [deeperThan, nextDepth, Option.map_none, Option.map_some]
         simp only [↓reduceIte, hk, hcpa, hkey, hfind, hnr, bind, Except.bind, pure, Except.pure, newDepthOf] at hkey ihkids ⊢
         sub_tail_e 0
       | some l =>
@@ -511,8 +516,9 @@ theorem loop_nodes_existing (ctx : ImplContext) (hk : ctx.kind.cls = .existing)
         rw [hp0] at hm
         have hdeepB : decide (d < ca0.childPath.strs.length - 1) = true := by simpa using hdeep
         conv => lhs; unfold structInitLoop
-        simp only [hpfx, hm, bind, Except.bind, pure, Except.pure, Bool.not_true, Bool.false_eq_true, ↓reduceIte, hfd, hns, hca0, Option.map_some]
+        simp only [levelBreak, levelBreak, hpfx, hm, bind, Except.bind, pure, Except.pure, Bool.not_true, Bool.false_eq_true, ↓reduceIte, hfd, hns, hca0, Option.map_some]
         unfold renderChildFragment
+        simp only [deeperThan, nextDepth, Option.map_none, Option.map_some]
         simp only [hdeepB, ↓reduceIte, hk, hcpa, hkey, hfind, hnr, bind, Except.bind, pure, Except.pure, newDepthOf] at hkey ihkids ⊢
         sub_tail_e (d + 1)
 
